@@ -429,6 +429,60 @@ pub fn c05_families(thorough: bool) -> Vec<(String, Vec<State>, bool)> {
         }
         fams.push((format!("L64 lattice +-1 deviation 3{}", if periodic { "P" } else { "R" }), sts, false));
     }
+    // (A2) non-cubic exact lattices (dyadic coordinates): body-centred, face-centred and diamond cubic with 2 (thorough 4)
+    // cells per side - every Voronoi vertex of a bcc / fcc lattice is an exact tie of 4 / 6 or more generators, the cells
+    // (truncated octahedra, rhombic dodecahedra) have vertices where four or more faces meet; off the walls, and (bcc)
+    // with the corner sites on the walls
+    for periodic in [false, true] {
+        for b in boxes.iter().take(2) {
+            let mut small = vec![];
+            let mut large = vec![];
+            for m in if thorough || std::env::var("VERIF_A2_M4").is_ok() { vec![2usize, 4] } else { vec![2usize] } {
+                let lat = |basis: &[[f64; 3]], off: f64, closed: bool| -> Vec<DVec3> {
+                    let mut pts = vec![];
+                    let top = if closed { m + 1 } else { m };
+                    for i in 0..top {
+                        for j in 0..top {
+                            for k in 0..top {
+                                for bs in basis {
+                                    let f = v3((i as f64 + off + bs[0]) / m as f64, (j as f64 + off + bs[1]) / m as f64, (k as f64 + off + bs[2]) / m as f64);
+                                    if f.max_element() <= 1. && (closed || f.max_element() < 1.) {
+                                        pts.push(b.anchor + f * b.width);
+                                    }
+                                }
+                            }
+                        }
+                    }
+                    pts
+                };
+                let bcc = [[0., 0., 0.], [0.5, 0.5, 0.5]];
+                let fcc = [[0., 0., 0.], [0.5, 0.5, 0.], [0.5, 0., 0.5], [0., 0.5, 0.5]];
+                let dia = [[0., 0., 0.], [0.5, 0.5, 0.], [0.5, 0., 0.5], [0., 0.5, 0.5], [0.25, 0.25, 0.25], [0.75, 0.75, 0.25], [0.75, 0.25, 0.75], [0.25, 0.75, 0.75]];
+                let mut add = |name: &str, pts: Vec<DVec3>| {
+                    let st = State { id: format!("{}|{}|{}{}", dim_tag(3, periodic), b.name, name, m), dim: 3, periodic, anchor: b.anchor, width: b.width, gens: pts };
+                    if st.n() <= 40 {
+                        small.push(st);
+                    } else {
+                        large.push(st);
+                    }
+                };
+                add("bcc", lat(&bcc, 0.125, false));
+                add("fcc", lat(&fcc, 0.125, false));
+                add("diamond", lat(&dia, 0.0625, false));
+                if !periodic {
+                    add("bcc-on-walls", lat(&bcc, 0., true));
+                    add("fcc-on-walls", lat(&fcc, 0., true));
+                } else {
+                    add("bcc-at-origin", lat(&bcc, 0., false));
+                    add("fcc-at-origin", lat(&fcc, 0., false));
+                }
+            }
+            fams.push((format!("A2:bcc/fcc/diamond 3{}|{} (<= 40 generators)", if periodic { "P" } else { "R" }, b.name), small, true));
+            if !large.is_empty() {
+                fams.push((format!("A2:bcc/fcc/diamond 3{}|{} (> 40 generators)", if periodic { "P" } else { "R" }, b.name), large, false));
+            }
+        }
+    }
     // (B4) Fibonacci shells: n generators on one sphere up to rounding (every four of them are co-spherical with every
     // other one), with and without a generator at the centre
     {
